@@ -17,6 +17,12 @@ kept (never rewritten by the caller).  Wall clock: eight deterministic clock set
 months are applied BEFORE the library is imported, in fork servers and in brand-new interpreters.
 A boosted run (proof / correspondence broke, source drift) multiplies the budgets by at most 2; the forms and the extra
 clock settings have a fixed share.
+Round 5 - CONSTRUCTION PROBE (c19_graph.py, `construction_probe` below): every class of the library is built twice from equal
+arguments, every mutable node of the object graph is compared by identity with the objects the library holds (parameter
+defaults, class attributes, globals), with the other instance and with the arguments, and edited in place by the caller; the
+other instance, a fresh one, the library's objects and the arguments must not notice.  The object graphs of the results held
+inside the histories are walked for library-held / shared nodes too.  Sharing that exists on the unchanged tree is listed, entry
+by entry with a remark, in c19.aliases.json (tools/c19_rebaseline.py --aliases [--write]) and spelled out in ctx.assumptions.
 """
 import json
 import os
@@ -36,6 +42,17 @@ HERE = os.path.dirname(os.path.abspath(__file__))
 WORKER = os.path.join(HERE, "c19_worker.py")
 with open(os.path.join(HERE, "c19_corpus.json")) as _f:
     CORPUS = json.load(_f)
+# sharing between a constructed object and library state / another instance / the caller's argument that exists on the UNCHANGED
+# tree, each judged by a person (regenerate: tools/c19_rebaseline.py --aliases [--write]; an entry whose remark starts with
+# "REVIEW" has not been judged and suppresses nothing)
+ALIASES_FILE = os.path.join(HERE, "c19.aliases.json")
+try:
+    with open(ALIASES_FILE) as _f:
+        _al = json.load(_f)
+        ALIASES = _al.get("reviewed", [])
+        RESULT_ROOTS = [e["prefix"] for e in _al.get("reviewed_result_roots", []) if not str(e.get("remark", "")).startswith("REVIEW")]
+except FileNotFoundError:
+    ALIASES, RESULT_ROOTS = [], []
 
 
 # ------------------------------------------------------------------------------------------------
@@ -949,6 +966,161 @@ def key_of(spec):
     return json.dumps({"ep": spec["ep"], "a": spec["a"]}, sort_keys=True)
 
 
+
+# ------------------------------------------------------------------------------------------------
+# construction aliasing (round 5): see c19_graph.py
+def alias_key(e):
+    return (e["cls"], e["via"], e["path"], e["with"], e["label"])
+
+
+def label_reviewed(lab, labels):
+    """is the library-held object `lab` (or the one it lies inside) one the reviewed list names?"""
+    return lab in labels or any(lab.startswith(x + ".") or lab.startswith(x + "[") for x in labels) or any(lab.startswith(x) for x in RESULT_ROOTS)
+
+
+def reviewed_aliases():
+    return {alias_key(e): e.get("remark", "") for e in ALIASES if not str(e.get("remark", "")).startswith("REVIEW")}
+
+
+def construction_results(thorough=False, ncpu=8, seed=0):
+    """(listing, [result per target]) from the fork servers"""
+    lst = parallel([{"op": "graph-list", "thorough": bool(thorough), "seed": seed}], 1)[0]
+    if not isinstance(lst, dict) or "targets" not in lst:
+        raise Infra(f"C19 worker could not list the classes of the library: {lst}")
+    tg = lst["targets"]
+    n = max(1, min(ncpu, len(tg)))
+    chunks = [tg[i::n] for i in range(n)]
+    rs = parallel([{"op": "graph", "targets": c} for c in chunks], n)
+    out = [None] * len(tg)
+    for i, rr in enumerate(rs):
+        for j, x in enumerate(rr["r"]):
+            out[i + j * n] = x
+    return lst, list(zip(tg, out))
+
+
+def construction_keys(res, f):
+    """identities of one finding: (class, way it was built, attribute path, shared with what, which object)"""
+    keys = []
+    for sh in f["shared"]:
+        keys.append((res["cls"], res["via"], f["path"], sh["with"], sh["label"] if sh["with"] != "instances" else "second-instance"))
+    kinds = {sh["with"] for sh in f["shared"]}
+    for e in f["effects"]:
+        on = {"held": "instances", "fresh": "library", "library": "library", "argument": "argument"}[e["on"]]
+        if on not in kinds and not (on == "library" and "instances" in kinds):
+            # behaviour without identity (a view, a copy made too late): keyed by the effect
+            keys.append((res["cls"], res["via"], f["path"], "effect:" + e["on"], ""))
+    return keys
+
+
+CONSTRUCT_KINDS = {"library": "constructed-object-shares-library-state", "instances": "constructed-objects-share-state",
+                   "argument": "constructed-object-keeps-argument"}
+
+
+def construction_story(res, f):
+    """the concrete history, as the statements a caller would write"""
+    ck = res["cls"].split(":")[1]
+    steps = [f"a = {res['call']}", f"b = {res['call']}    # equal arguments, made separately"]
+    if f.get("edit"):
+        steps.append(f"a{f['path']}: {f['edit']}    # the caller edits ITS OWN object in place; a{f['path']} was {f['value']}")
+    for sh in f["shared"]:
+        if sh["with"] == "library":
+            steps.append(f"# a{f['path']} IS the object the library holds as {sh['label']}")
+        elif sh["with"] == "instances":
+            steps.append(f"# a{f['path']} IS b{sh['label'].split(' of a second')[0]}: one {f['type']} object in two {ck} results")
+        else:
+            steps.append(f"# a{f['path']} IS the caller's argument object `{sh['label']}`")
+    for e in f["effects"]:
+        steps.append(f"# {e['text']}: {e['expected']}  ->  {e['actual']}")
+    return steps
+
+
+def construction_probe(ctx, fail, ncpu):
+    """every class of the library built twice with equal arguments; every mutable node of the object graph compared by identity with
+    library-held objects / the other instance / the arguments and edited in place (c19_graph.examine, in fork servers)"""
+    lst, results = construction_results(ctx.thorough(), ncpu, ctx.seed)
+    reviewed = reviewed_aliases()
+    ctx.count("construct:classes", lst.get("classes", 0))
+    ctx.count("construct:targets", len(results))
+    ctx.count("construct:classes-built", len({t["cls"] for t, _ in results}))
+    ctx.count("construct:factories", len({(t["cls"], t["via"]) for t, _ in results if t["via"] != "ctor"}))
+    ctx.count("construct:classes-without-constructor(static-methods-only)", len(lst.get("static_only") or []))
+    if lst.get("unbuildable"):
+        ctx.count("construct:classes-not-buildable", len(lst["unbuildable"]))
+        ctx.notes.append("classes the construction probe found no accepted arguments for: " + ", ".join(lst["unbuildable"][:12]))
+    if lst.get("skipped_modules"):
+        ctx.count("construct:modules-not-importable", len(lst["skipped_modules"]))
+        ctx.notes.append("modules the construction probe could not import: " + ", ".join(lst["skipped_modules"][:8]))
+    seen_fail = set()
+    used = set()
+    pending = []
+    for t, res in results:
+        if not isinstance(res, dict) or "child_error" in (res or {}) or "findings" not in (res or {}):
+            ctx.count("construct:probe-failed")
+            ctx.notes.append(f"construction probe of {t['cls']} ({t['variant']}) did not finish: {(res or {}).get('child_error', res)}")
+            continue
+        ctx.count(f"construct:variant:{t['variant'].split(':')[0]}")
+        ctx.count("construct:mutable-nodes", res["nodes"])
+        ctx.count("construct:nodes-edited-in-place", res["edited"])
+        for n in res["notes"]:
+            ctx.count("construct:note:" + n.split(":")[0])
+        ctx.case(("construct", t["cls"], t["via"], t["variant"]), nontrivial=res["nodes"] > 0,
+                 sample={"construct": res["call"], "variant": t["variant"], "mutable-nodes": res["nodes"], "edited": res["edited"]} if len(ctx.samples) < 3 and res["nodes"] else None)
+        for f in res["findings"]:
+            keys = construction_keys(res, f)
+            new = [k for k in keys if k not in reviewed]
+            used.update(k for k in keys if k in reviewed)
+            for k in keys:
+                ctx.count("construct:sharing:" + k[3].split(":")[0] + (":reviewed" if k in reviewed else ":NEW"))
+            if new:
+                pending.append((t, res, f, new))
+    # the shortest story first: the class whose own attribute it is before the PDUs that contain such an object
+    pending.sort(key=lambda x: (x[2]["path"].count(".") + x[2]["path"].count("["), len(x[0]["plan"]), x[0]["cls"], x[0]["variant"]))
+    reported = 0
+    for t, res, f, new in pending:
+        k = new[0]
+        if (k[0], k[1], k[2]) in seen_fail:
+            continue  # the same attribute of the same class through another variant of the arguments
+        seen_fail.add((k[0], k[1], k[2]))
+        eff_on = {"held": "instances", "fresh": "library", "library": "library", "argument": "argument"}
+        kind = CONSTRUCT_KINDS[eff_on[k[3][7:]] if k[3].startswith("effect:") else k[3]]
+        if reported >= 8:
+            ctx.count(f"fail:{kind}")
+            continue
+        reported += 1
+        withs = sorted({x[3] for x in new})
+        what = (f"{res['call']}: the {f['type']} at {f['path'] or 'the result'} of the object it returns is "
+                + "; ".join(("the object the library holds as " + x[4]) if x[3] == "library" else ("the very object a second call with equal arguments returned there") if x[3] == "instances"
+                            else ("the caller's argument object `" + x[4] + "`, kept as is") if x[3] == "argument" else ("tied to it (" + x[3] + ")") for x in new)
+                + (f".  After the caller edits it in place ({f['edit']}): " + "; ".join(e["text"] for e in f["effects"]) if f["effects"] else ""))
+        eff = next((e for e in f["effects"] if e["on"] in ("fresh", "held")), None) or (f["effects"][0] if f["effects"] else None)
+        fail(kind, {"construct": t, "path": f["path"], "new_sharing": [list(x) for x in new], "history": None, "steps": construction_story(res, f)},
+             what, expected=eff["expected"] if eff else "an object of its own", actual=eff["actual"] if eff else "shared (" + ", ".join(withs) + ")")
+    gone = sorted(k for k in reviewed if k not in used)
+    if gone:
+        ctx.count("construct:reviewed-sharing-gone", len(gone))
+        ctx.notes.append("reviewed sharing (c19.aliases.json) that this run did not see any more: " + "; ".join(f"{k[0].split(':')[1]}{k[2]} ({k[3]})" for k in gone[:8]))
+    return lst, results
+
+
+def construction_assumptions():
+    """what the reviewed list lets pass, spelled out (nothing is excluded silently)"""
+    rv = [e for e in ALIASES if not str(e.get("remark", "")).startswith("REVIEW")]
+    if not rv:
+        return []
+    name = lambda e: f"{e['cls'].split(':')[1]}{'.' + e['via'][8:] + '()' if e['via'] != 'ctor' else ''}{e['path']}"  # noqa: E731
+    lib = sorted({f"{name(e)} [{e['label']}]" for e in rv if e["with"] == "library"})
+    arg = sorted({f"{name(e)}<-{e['label']}" for e in rv if e["with"] == "argument"})
+    out = ["construction probe: sharing that exists on the UNCHANGED tree is listed, each with a remark, in harness/props/c19.aliases.json and is not reported again "
+           "(anything not in that list is a failure).  (1) the object a constructor / accessor stores or hands out IS an object the library holds - GENUINE on the unchanged "
+           "tree and reported to the coordinator for a decision (repair or known finding), not hidden: editing that attribute of ONE object in place changes every other and "
+           "every later object built with the same (default) arguments: " + "; ".join(lib)]
+    if RESULT_ROOTS:
+        out[0] += ".  Objects returned inside histories may reference (reviewed, kept by hand in the same file): everything under " + ", ".join(RESULT_ROOTS) + " (a parsed MBXML document references the class-level LRRP token definitions and default constants table themselves)"
+    out.append(f"construction probe: (2) {len(arg)} constructor parameters whose mutable argument object is kept as is (self.x = x, the style of the library's PDU classes on the "
+               "unchanged tree; what the caller later does to its own object shows in the PDU and vice versa - the caller's act, not a library call): " + "; ".join(arg))
+    return out
+
+
 # ------------------------------------------------------------------------------------------------
 def run(ctx):
     from props.c19_model import model_lines  # correspondence with the Lean model (history-free model + inventory)
@@ -990,7 +1162,15 @@ def run(ctx):
         "unchanged by what the introspection finds.  CONFIGURATION SWEEP (deterministic): every non-default CRC configuration of the pool "
         "and every combination of init 0 / all ones, reverse_input_bytes, reverse_output_bytes on the (width, polynomial) of each library "
         "calculator, as bitwise / table based / kept table based calculator on messages of 0 / 1 / 2 / 5 octets, each kept one twice, then the "
-        "library's own calculators and the PDUs that use them.  A case = one executed call inside a history; non-trivial unless the call raised."
+        "library's own calculators and the PDUs that use them.  CONSTRUCTION PROBE (deterministic): every class of okdmr.dmrlib (found by walking the package "
+        "directory, Enums excepted) is built with the required arguments only (synthesised from the annotations until the constructor accepts them), with every "
+        "optional object given, and once per parameter that takes a mutable value with an object the caller keeps; public no-argument static / class methods of the "
+        "codec packages that hand out a mutable object are called as factories.  Two instances from equal, separately made arguments; every mutable node of the "
+        "first one's attribute graph (bitarray, bytearray, list, dict, set, array, numpy array, nested library object; through vars(), lists, dicts) is compared "
+        "by identity with every object the library holds (parameter defaults of every function, class attributes, module globals, enum member state), with the nodes "
+        "of the second instance and with the argument objects, then edited in place by the caller (inverted / appended / popped / a scalar field set): the second "
+        "instance, a freshly built third one, the library-held objects and the arguments must be what they were (and are again once the edit is undone).  "
+        "A case = one executed call inside a history, or one constructed class / variant; non-trivial unless the call raised."
     )
     ctx.trusted_base += [
         "Lean 4.33 kernel",
@@ -1005,10 +1185,12 @@ def run(ctx):
         "purity is claimed for the catalogued public codec entry points (CRC, FEC, PDU, burst, Hytera, Motorola, utils), not for the protocol handlers / storage / transmission tracker (C08, C17, C18, C20)",
         "the documented in-place repairs (HammingCommon.check_and_correct, BPTC19696.repair_if_necessary(deinterleaved=True)) may change their argument iff they return that very buffer",
         "a bit array handed over where octets are expected is compared by result only where it is read as a whole through bitarray.frombytes on whole octets (BUFFER_ARGS); elsewhere the callee's slices of it do not fill their last octet and what the buffer protocol shows of the pad bits is unspecified memory (not library state) - those calls are executed for the argument snapshot and the identity test only",
-        "the caller's overwrite (scribble) reaches returned top-level buffers and buffers directly inside a returned list / tuple; FIELDS of a returned object are not overwritten (Burst() keeps its constructor's default bitarray as full_bits: inventoried as mutable-default; writing into it is the caller's act, not a library call)",
+        "inside the random histories the caller's overwrite (scribble) reaches returned top-level buffers and buffers directly inside a returned list / tuple; the FIELDS of constructed objects are edited in place by the construction probe (every class, every mutable node of the object graph, c19_graph.py), not inside the random histories",
+        "construction probe: arguments are synthesised from the annotations (first accepted candidate per parameter: one enum member, one width per buffer), one object graph per class and variant - an attribute that only exists for other argument values (another opcode, another packet format) is not reached; the protocol handlers / storage / transmission classes are built and examined, but none of their other methods is called",
         "forced thread interleavings are out of scope (the property does not mention concurrency); state a threaded interleaving could expose is reported as an inventory / shared-state difference",
         "LocationProtocol's default gpsdata carries the date of the import day (date.today() in a default argument); it reaches as_bytes of a default-built StandardReport only and is compared with the import date, not across days",
     ]
+    ctx.assumptions += construction_assumptions()
     r = ctx.rng
     fp0 = source_fingerprint()
     CAT = catalogue()
@@ -1060,6 +1242,10 @@ def run(ctx):
         t_phase[0] = now
 
     phase("worker-start+introspection")
+    # ---------------- construction aliasing: every class of the library built twice, every mutable node of the object edited in place
+    # (deterministic, draws nothing from the random streams)
+    construction_probe(ctx, fail, ncpu)
+    phase("construction-probe")
     # ---------------- argument pool
     pool = {}
     for rng, nms in ((r, names), (ra, auto_names)):
@@ -1486,12 +1672,15 @@ def run(ctx):
 
     t0 = time.time()
     # every object returned inside a (short) history stays held by the caller and is examined again after the last call
-    resp = parallel([{"op": "seq", "calls": calls, "probe": True, "hold": len(calls) <= 40, "reseed": label.endswith(":reseed")} for label, calls in histories], ncpu)
+    # (deep: the object graphs of the held results are walked as well - nodes that ARE library-held objects, nodes shared by two results)
+    resp = parallel([{"op": "seq", "calls": calls, "probe": True, "hold": len(calls) <= 40, "deep": True, "reseed": label.endswith(":reseed")} for label, calls in histories], ncpu)
     ctx.notes.append(f"{len(histories)} histories ({sum(len(c) for _, c in histories)} calls) in {time.time() - t0:.1f}s")
     bad_hist = []
     held_bad = []
     alias_bad = []
     state_changed = []
+    deep_lib, deep_cross = {}, []
+    reviewed_labels = {k[4] for k in reviewed_aliases() if k[3] == "library"}
     for (label, calls), rr in zip(histories, resp):
         ctx.count(f"history:{label.split(':')[0]}")
         if label.startswith("element:"):
@@ -1518,6 +1707,17 @@ def run(ctx):
             alias_bad.append((label, calls, al))
         if "held_changed" in rr:
             ctx.count("held-results-examined", len(calls))
+        hd = rr.get("held_deep") or {}
+        if hd.get("error"):
+            ctx.count("held-deep:walk-failed")
+        for hit in hd.get("library") or []:
+            rv = label_reviewed(hit[2], reviewed_labels)
+            ctx.count("held-deep:library-held-node:" + ("reviewed" if rv else "NEW"))
+            if not rv:
+                deep_lib.setdefault(hit[2], (label, calls, hit))
+        for hit in hd.get("cross") or []:
+            ctx.count("held-deep:node-shared-by-two-results")
+            deep_cross.append((label, calls, hit))
         pr = rr.get("probe") or {}
         diff = sorted(k for k in set(pr) | set(pristine) if pr.get(k) != pristine.get(k))
         if diff:
@@ -1579,6 +1779,32 @@ def run(ctx):
              expected="two objects", actual=f"one {tn}")
     for _ in alias_bad[3:]:
         ctx.count("fail:returned-objects-alias")
+
+    # a returned object graph holds an object of the library (not in the reviewed list): the call alone, in a fresh state
+    for lab, (label, calls, hit) in sorted(deep_lib.items())[:4]:
+        i, path, _lab, tn = hit
+        one = subhist(calls, [i]) or calls[: i + 1]
+        rr = parallel([{"op": "seq", "calls": one, "probe": False, "hold": True, "deep": True}], 1)[0]
+        again = [h for h in ((rr.get("held_deep") or {}).get("library") or []) if h[2] == lab]
+        best, bi = (one, again[0][0]) if again else (calls[: i + 1], i)
+        fail("returned-object-holds-library-state", {"history": best, "index": bi, "path": path, "library_object": lab, "found_in": label},
+             f"{calls[i]['ep']}: the {tn} at {path or 'the top'} of what it returns IS the object the library holds as {lab}: a caller who edits its result in place changes what every later call sees",
+             expected="an object of its own", actual=f"the library's {lab}")
+    for _ in sorted(deep_lib)[4:]:
+        ctx.count("fail:returned-object-holds-library-state")
+    for label, calls, hit in deep_cross[:3]:
+        i, pi, j, pj, tn = hit
+        pair = subhist(calls, [i, j])
+        best, bi, bj = calls[: j + 1], i, j
+        if pair:
+            rr = parallel([{"op": "seq", "calls": pair, "probe": False, "hold": True, "deep": True}], 1)[0]
+            if any(h[0] == 0 and h[2] == 1 for h in ((rr.get("held_deep") or {}).get("cross") or [])):
+                best, bi, bj = pair, 0, 1
+        fail("returned-objects-share-state", {"history": best, "index": bj, "other": bi, "paths": [pi, pj], "found_in": label},
+             f"the {tn} at {pi or 'the top'} of what call #{bi} ({best[bi]['ep']}) returned IS the {tn} at {pj or 'the top'} of what call #{bj} ({best[bj]['ep']}) returned: two results share one mutable object, what the caller does to one shows in the other",
+             expected="two objects", actual=f"one {tn}")
+    for _ in deep_cross[3:]:
+        ctx.count("fail:returned-objects-share-state")
 
     # shrink the first few history-dependent results to a short reproducing history
     for label, calls, i, exp, act in bad_hist[:6]:
@@ -1697,12 +1923,33 @@ def replay(obj):
     inp = f.get("input") or {}
     hist = inp.get("history")
     print(json.dumps(obj.get("type")), f.get("kind"), "-", f.get("what"))
+    if inp.get("construct"):
+        # construction probe: the target is examined again in a fresh fork server
+        res = parallel([{"op": "graph", "targets": [inp["construct"]]}], 1)[0]["r"][0]
+        reviewed = reviewed_aliases()
+        still = 0
+        for f2 in res.get("findings") or []:
+            new = [k for k in construction_keys(res, f2) if k not in reviewed]
+            if f2["path"] == inp.get("path") and new:
+                still = 1
+                for line in construction_story(res, f2):
+                    print(line)
+        if not still:
+            print(f"{res.get('call')}: nothing at {inp.get('path')} is shared any more", res.get("notes") or "")
+        print("expected:", f.get("expected"))
+        print("actual  :", f.get("actual"))
+        return still
     if not hist:
         print("no history recorded (proof / correspondence replay): see 'no_longer_checks' / 'correspondence_differences' in the file")
         return 1
-    rr = parallel([{"op": "seq", "calls": hist, "probe": True, "hold": True}, {"op": "first", "specs": [unkept(hist[-1])]}, {"op": "probe"}], 1)
+    rr = parallel([{"op": "seq", "calls": hist, "probe": True, "hold": True, "deep": True}, {"op": "first", "specs": [unkept(hist[-1])]}, {"op": "probe"}], 1)
     seq, first, pristine = rr[0], rr[1]["r"][0], rr[2]["probe"]
-    held = (seq.get("held_changed") or []) + (seq.get("held_alias") or [])
+    deep = seq.get("held_deep") or {}
+    rl = {k[4] for k in reviewed_aliases() if k[3] == "library"}
+    deep_hits = [h for h in deep.get("library") or [] if not label_reviewed(h[2], rl)] + (deep.get("cross") or [])
+    for h in deep_hits:
+        print("shared node:", h)
+    held = (seq.get("held_changed") or []) + (seq.get("held_alias") or []) + deep_hits
     for ch in seq.get("held_changed") or []:
         print(f"the object returned by call #{ch[0]} ({hist[ch[0]]['ep']}) changed afterwards: {ch[1]} -> {ch[2]}")
     for al in seq.get("held_alias") or []:
